@@ -56,6 +56,7 @@ Fixpoint wal_frames (fuel : nat) (h : walhdr) (b : list N) (off : nat) (c1 c2 : 
     match sub b off 24, sub b (off + 24) ps with
     | Some fh, Some data =>
       if negb ((u32 fh 8 =? wh_salt1 h) && (u32 fh 12 =? wh_salt2 h)) then []
+      else if u32 fh 0 =? 0 then []                    (* page numbers start at 1 (SQLite walDecodeFrame) *)
       else
         let '(a1, a2) := wal_checksum (wh_be h) c1 c2 (firstn 8 fh) in
         let '(d1, d2) := wal_checksum (wh_be h) a1 a2 data in
@@ -74,7 +75,7 @@ Definition wal_read (b : list N) : hres * list frame :=
 (* ---- the spec, written as a predicate over a parsed WAL (SQLite file format, section 4.1-4.3) ---- *)
 Definition frame_bytes_ok (h : walhdr) (fh data : list N) (c1 c2 : N) : Prop :=
   length fh = 24%nat /\ length data = N.to_nat (wh_ps h) /\
-  u32 fh 8 = wh_salt1 h /\ u32 fh 12 = wh_salt2 h /\
+  u32 fh 8 = wh_salt1 h /\ u32 fh 12 = wh_salt2 h /\ u32 fh 0 <> 0 /\
   let '(a1, a2) := wal_checksum (wh_be h) c1 c2 (firstn 8 fh) in
   let '(d1, d2) := wal_checksum (wh_be h) a1 a2 data in
   d1 = u32 fh 16 /\ d2 = u32 fh 20.
@@ -114,6 +115,7 @@ Fixpoint build_tx (fuel : nat) (h : walhdr) (b : list N) (off : nat) (c1 c2 : N)
     | Some fr =>
       let fh := firstn 24 fr in let data := skipn 24 fr in
       if negb ((u32 fh 8 =? wh_salt1 h) && (u32 fh 12 =? wh_salt2 h)) then None
+      else if u32 fh 0 =? 0 then None
       else
         let '(a1, a2) := wal_checksum (wh_be h) c1 c2 (firstn 8 fh) in
         let '(d1, d2) := wal_checksum (wh_be h) a1 a2 data in
